@@ -137,4 +137,17 @@ CHECKS = {
              "re-implementing the suffix counter. Template+default argument and same-named Lua functions in two "
              "namespaces are recorded known findings (probed, excluded from the main search).",
     ),
+    "C09": dict(
+        level="exploration",
+        technique="grammar-based property testing (Hypothesis) with three oracles: generator's structural model, g++ "
+                  "static_assert(std::is_same) between original and rendering, parse/render round trip",
+        design_ref="DESIGN.md section 4, C09",
+        text="Declarations generated from the documented declarator grammar are parsed by Shroud; the recorded structure "
+             "must equal the generator's model; g++ must accept Shroud's renderings (gen_decl, gen_arg_as_cxx of every "
+             "named parameter and of the result, gen_arg_as_c against the documented C counterpart) and find them the "
+             "same type as the original; re-parsing Shroud's own rendering must give the same declaration (no default "
+             "values); expressions must survive print/parse and constant expressions keep their g++-evaluated value.",
+        note="Trusted base: g++ 12 (-std=c++11), the prelude declaring the named types, the generator's model. "
+             "gen_decl(attrs=False) is compiled after removing the parameter attributes it still prints.",
+    ),
 }
